@@ -27,6 +27,8 @@ func main() {
 		corr.Main(spec(), os.Args[2:])
 	case "concchild":
 		concChild(os.Args[2:])
+	case "probechild":
+		probeChild()
 	default:
 		os.Exit(2)
 	}
